@@ -142,6 +142,14 @@ def akai_corruptions(rng, img, part, vol, used, tier):
         for off in (42, 38, 40, 151, 152, 1, 2):
             for val in (0, 1, 0xFF, 0xFFFF):
                 yield "file%d.body[%d]=%d" % (k, off, val), [(h + off, struct.pack("<H", val)[: 2 if val > 0xFF else 1])]
+    # pairs: a directory size field of 0 / below the header length together with a degenerate play window
+    # (size <= 0 windows are "not clipped": the read loop must still end)
+    for k, f in enumerate(vol.files[:2]):
+        e = d0 + 24 * k
+        h = f.sectors[0] * SECTOR
+        for sz in (0, 1, 139, 140):
+            for st, en in ((0, 0), (10, 5), (0xFFFFFFFF, 0), (5, 5)):
+                yield "file%d.size=%d+window=%d..%d" % (k, sz, st, en), [(e + 17, sz.to_bytes(3, "little")), (h + 30, struct.pack("<II", st, en))]
     for _ in range(10 if tier == "quick" else 80):
         patches = []
         for _ in range(rng.randint(1, 4)):
@@ -167,7 +175,7 @@ def w_akai(pid, tier, seed, job):
     cs = list(akai_corruptions(rng, img, part, vol, used, tier))
     if tier == "quick":
         rng2 = random.Random(job + 1)
-        keep = [c for c in cs if c[0].startswith("partition-size") or rng2.random() < 0.12]
+        keep = [c for c in cs if c[0].startswith("partition-size") or "+window=" in c[0] or rng2.random() < 0.12]
         cs = keep
     for tag, patches in cs:
         d = bytearray(img)
@@ -266,6 +274,10 @@ def w_random(pid, tier, seed, job):
     for body in ("a" * 60, "a b" * 40, "\\" * 50, 'a\\"' * 30, " " * 400, "x" * 5000):
         variants.append(hdr + '  TITLE "' + body + "\n INDEX 01 00:00:00\n")            # no closing quote
         variants.append(hdr + '  TITLE "' + body + '"\n INDEX 01 00:00:00\n')
+    # titles that make the NAME routines (sanitising, counting, L/R pairing) work hard: long runs of blanks / separators inside
+    for body in ("a" + " " * 3000 + "b", "a" + " -" * 30000 + "b", "a" + " ." * 2500 + " L", "x" + "- " * 30000 + "R", "a" + "." * 4000 + " b"):
+        variants.append(hdr + '  TITLE "' + body + '"\n INDEX 01 00:00:00\n')
+        variants.append(hdr + '  TITLE "' + body + '"\n INDEX 01 00:00:00\n TRACK 02 AUDIO\n  TITLE "' + body + '"\n INDEX 01 00:00:01\n')
     variants.append('FILE "' + "n" * 80 + "\n TRACK 01 AUDIO\n INDEX 01 00:00:00\n")              # FILE without closing quote
     variants.append('FILE "' + "n n" * 40 + '" BINAR\n TRACK 01 AUDIO\n')
     variants.append(hdr + " INDEX " + "1" * 60 + " " + "2" * 60 + ":" + "3" * 60 + "\n")
